@@ -31,14 +31,22 @@ None == "none"
 
 \* ---------------- record values ----------------
 \* plain leaf, holder (only H holds: field r = first kid, field rl = remaining kids), grouped with members
-Leaf(d) == [kind |-> "rec", d |-> d, kids |-> <<>>]
+\* `bad` marks a record one of whose OWN values cannot be packed (e.g. text with a lone surrogate): write() raises
+\* while packing it -- after the descriptors met so far have already been emitted.
+Leaf(d) == [kind |-> "rec", d |-> d, kids |-> <<>>, bad |-> FALSE]
+BadLeaf(d) == [kind |-> "rec", d |-> d, kids |-> <<>>, bad |-> TRUE]
+Hold(ks) == [kind |-> "rec", d |-> "H", kids |-> ks, bad |-> FALSE]
 Leaves == {Leaf(d) : d \in Descs \ {"H"}}
-Holders == {[kind |-> "rec", d |-> "H", kids |-> ks] :
-              ks \in {<<>>} \cup {<<a>> : a \in Leaves} \cup {<<a, b>> : a \in Leaves, b \in Leaves}}
+BadLeaves == {BadLeaf(d) : d \in {"A", "Acol", "B"}}
+Holders == {Hold(ks) : ks \in {<<>>} \cup {<<a>> : a \in Leaves} \cup {<<a, b>> : a \in Leaves, b \in Leaves}}
 Plain == Leaves \cup Holders
-Groups == {[kind |-> "grp", d |-> "G", kids |-> <<a, b>>] :
-              a \in Leaves, b \in {Leaf("B"), [kind |-> "rec", d |-> "H", kids |-> <<Leaf("A2")>>]}}
+Groups == {[kind |-> "grp", d |-> "G", kids |-> <<a, b>>, bad |-> FALSE] :
+              a \in Leaves, b \in {Leaf("B"), Leaf("A2"), Hold(<<Leaf("A2")>>)}}
 Recs == IF Packer = "json" THEN Plain ELSE Plain \cup Groups
+\* values whose write fails part-way (binary packer only; the JSON packer escapes such text)
+FailRecs == IF Packer = "json" THEN {}
+            ELSE BadLeaves \cup {Hold(<<x>>) : x \in BadLeaves}
+                           \cup {Hold(<<a, x>>) : a \in Leaves, x \in BadLeaves} \cup {Hold(<<x, a>>) : a \in Leaves, x \in BadLeaves}
 
 \* descriptors a value needs, as a set
 RECURSIVE Needs(_)
@@ -88,6 +96,17 @@ EmitRec(r, v) ==
           b == Inner(a[1], v.kids)
       IN <<b[1], a[2] \o b[2]>>
 
+\* the same traversal, stopping at the first record whose own values cannot be packed: <<registry', frames, stopped>>
+RECURSIVE EmitS(_, _), EmitKidsS(_, _)
+EmitKidsS(r, ks) == IF ks = <<>> THEN [r |-> r, f |-> <<>>, stop |-> FALSE]
+                    ELSE LET a == EmitS(r, Head(ks)) IN
+                         IF a.stop THEN a
+                         ELSE LET b == EmitKidsS(a.r, Tail(ks)) IN [r |-> b.r, f |-> a.f \o b.f, stop |-> b.stop]
+EmitS(r, v) == LET r1 == IF Known(r, v.d) THEN r ELSE Register(r, v.d)
+                   f1 == IF Known(r, v.d) THEN <<>> ELSE <<[k |-> "DESC", d |-> v.d]>>
+               IN IF v.bad THEN [r |-> r1, f |-> f1, stop |-> TRUE]
+                  ELSE LET rest == EmitKidsS(r1, v.kids) IN [r |-> rest.r, f |-> f1 \o rest.f, stop |-> rest.stop]
+
 Init == /\ reg = [w \in Writers |-> [k \in Keys |-> None]]
         /\ out = [w \in Writers |-> <<>>]
         /\ hdr = [w \in Writers |-> FALSE]
@@ -103,9 +122,20 @@ Write(w, v) == /\ NOps < MaxOps
                   IN /\ reg' = [reg EXCEPT ![RegOf(w)] = e[1]]
                      /\ out' = [out EXCEPT ![w] = @ \o h \o e[2] \o <<[k |-> "REC", v |-> v]>>]
                /\ hdr' = [hdr EXCEPT ![w] = TRUE]
-               /\ hist' = [hist EXCEPT ![w] = Append(@, v)]
+               /\ hist' = [hist EXCEPT ![w] = Append(@, [v |-> v, ok |-> TRUE])]
 
-Next == \E w \in Writers, v \in Recs : Write(w, v)
+\* a write that raises while packing: the header and the descriptors met before the failure are already in the
+\* stream (and in the registry); no record frame follows
+FailWrite(w, v) == /\ NOps < MaxOps
+                   /\ LET e == EmitS(reg[RegOf(w)], v)
+                          h == IF hdr[w] \/ Packer = "json" THEN <<>> ELSE <<[k |-> "HDR"]>>
+                      IN /\ e.stop
+                         /\ reg' = [reg EXCEPT ![RegOf(w)] = e.r]
+                         /\ out' = [out EXCEPT ![w] = @ \o h \o e.f]
+                   /\ hdr' = [hdr EXCEPT ![w] = TRUE]
+                   /\ hist' = [hist EXCEPT ![w] = Append(@, [v |-> v, ok |-> FALSE])]
+
+Next == (\E w \in Writers, v \in Recs : Write(w, v)) \/ (\E w \in Writers, v \in FailRecs : FailWrite(w, v))
 Spec == Init /\ [][Next]_vars
 
 \* ---------------- reader model and the property ----------------
@@ -131,18 +161,20 @@ DefBeforeUse == \A w \in Writers : ReadOK(EmptyReg, out[w])
 HeaderFirst == \A w \in Writers : (Packer = "msgpack" /\ out[w] # <<>>) => out[w][1].k = "HDR"
 \* one REC frame per record written, in order, carrying that record
 RecFrames(w) == SelectSeq(out[w], LAMBDA f : f.k = "REC")
-RecPerWrite == \A w \in Writers : /\ Len(RecFrames(w)) = Len(hist[w])
-                                  /\ \A i \in DOMAIN hist[w] : RecFrames(w)[i].v = hist[w][i]
+OkHist(w) == SelectSeq(hist[w], LAMBDA h : h.ok)
+RecPerWrite == \A w \in Writers : /\ Len(RecFrames(w)) = Len(OkHist(w))
+                                  /\ \A i \in DOMAIN OkHist(w) : RecFrames(w)[i].v = OkHist(w)[i].v
 \* independence per stream: a writer's output is a function of its own history only
 RECURSIVE ExpectedOut(_, _, _)
 ExpectedOut(r, h, first) ==
    IF h = <<>> THEN <<>>
-   ELSE LET e == EmitRec(r, Head(h))
-            hd == IF first /\ Packer = "msgpack" THEN <<[k |-> "HDR"]>> ELSE <<>>
-        IN hd \o e[2] \o <<[k |-> "REC", v |-> Head(h)]>> \o ExpectedOut(e[1], Tail(h), FALSE)
+   ELSE LET hd == IF first /\ Packer = "msgpack" THEN <<[k |-> "HDR"]>> ELSE <<>> IN
+        IF Head(h).ok
+        THEN LET e == EmitRec(r, Head(h).v) IN hd \o e[2] \o <<[k |-> "REC", v |-> Head(h).v]>> \o ExpectedOut(e[1], Tail(h), FALSE)
+        ELSE LET e == EmitS(r, Head(h).v) IN hd \o e.f \o ExpectedOut(e.r, Tail(h), FALSE)
 PerStream == \A w \in Writers : out[w] = ExpectedOut(EmptyReg, hist[w], TRUE)
 
 \* state constraint used by the exhaustive configuration: values that need two descriptors with one
 \* identifier inside ONE frame cannot be told apart by any emission order (known residual finding)
-NoSelfColliding == \A w \in Writers : \A i \in DOMAIN hist[w] : ~SelfColliding(hist[w][i])
+NoSelfColliding == \A w \in Writers : \A i \in DOMAIN hist[w] : ~SelfColliding(hist[w][i].v)
 =============================================================================
